@@ -108,10 +108,10 @@ def run(ctx):
     binary = ctx.go_test_build("plugin/input/kafka")
     thorough = ctx.tier == "thorough"
     big = {"NRec": "8", "NProcs": "3"} if thorough else {"NRec": "6", "NProcs": "3"}
-    res = ctx.tlc_expect_ok("KafkaInput", "KafkaInput_residual.cfg", timeout=1800, deadlock=False, overrides=big,
+    res = ctx.tlc_expect_ok("KafkaInput", "KafkaInput_residual.cfg", timeout=5400, deadlock=False, overrides=big,
                             name="KafkaInput/per-partition-FIFO")
     if thorough:
-        ctx.tlc_expect_ok("KafkaInput", "KafkaInput_residual.cfg", timeout=3000, deadlock=False,
+        ctx.tlc_expect_ok("KafkaInput", "KafkaInput_residual.cfg", timeout=9000, deadlock=False,
                           overrides={"NRec": "7", "NProcs": "3", "Parts": "{0, 1, 2}"}, name="KafkaInput/per-partition-FIFO, three partitions")
     pack = [p for p in res.printed if isinstance(p, dict) and "pack" in p]
     if not pack:
@@ -124,26 +124,26 @@ def run(ctx):
                 for epoch in (0, 65535):
                     cases.append(dict(idx=idx, part=part, off=off, epoch=epoch, src=idx * 65536 + part,
                                       packed=off * 65536 + epoch, mark=off + 1))
-    d10 = ctx.tlc("KafkaInput", "KafkaInput_faithful.cfg", timeout=600, deadlock=False, name="KafkaInput/spread")
+    d10 = ctx.tlc("KafkaInput", "KafkaInput_faithful.cfg", timeout=1800, deadlock=False, name="KafkaInput/spread")
     if d10.ok or d10.violated != "MarkSafe":
         raise vlib.Infra("design model does not reproduce D10 under spread routing (violated=%s)" % d10.violated)
     ctx.states += d10.distinct
     ctx.transitions += d10.generated
     # shutdown of a whole pipeline: the input makes its position durable before the output abandons what is in flight
-    ctx.tlc_expect_ok("Shutdown", "Shutdown_ok.cfg", timeout=300, deadlock=False, overrides={"N": "6"} if thorough else None, name="Shutdown/faithful")
-    sm = ctx.tlc("Shutdown", "Shutdown_mut.cfg", timeout=300, deadlock=False, name="Shutdown/mutant output stops first")
+    ctx.tlc_expect_ok("Shutdown", "Shutdown_ok.cfg", timeout=900, deadlock=False, overrides={"N": "6"} if thorough else None, name="Shutdown/faithful")
+    sm = ctx.tlc("Shutdown", "Shutdown_mut.cfg", timeout=900, deadlock=False, name="Shutdown/mutant output stops first")
     if sm.ok or sm.violated != "ShutdownSafe":
         raise vlib.Infra("spec mutant M_InputStopsBeforeOutput is not rejected by ShutdownSafe (violated=%s)" % sm.violated)
     scs = scenarios(ctx, 900 if thorough else 240)
     inp = os.path.join(ctx.scratch, "c10_in.json")
     out = os.path.join(ctx.scratch, "c10_trace.ndjson")
     json.dump({"scenarios": scs, "pack": cases}, open(inp, "w"))
-    rc, txt = ctx.run_bin(binary, "^TestVerifC10$", env={"VERIF_CASES": inp, "VERIF_OUT": out}, timeout=1500)
+    rc, txt = ctx.run_bin(binary, "^TestVerifC10$", env={"VERIF_CASES": inp, "VERIF_OUT": out}, timeout=4500)
     if rc != 0 or not os.path.exists(out) or not os.path.exists(out + ".pack"):
         raise vlib.Infra("C10 harness failed rc=%s:\n%s" % (rc, txt[-3000:]))
     pk = json.load(open(out + ".pack"))
     recs = [{"kind": "pack_mismatch", "case": b} for b in pk["pack_bad"]]
-    mon = ctx.tlc("KafkaMon", "KafkaMon.cfg", workers=1, files={out: "trace.ndjson"}, timeout=900, deadlock=False,
+    mon = ctx.tlc("KafkaMon", "KafkaMon.cfg", workers=1, files={out: "trace.ndjson"}, timeout=2700, deadlock=False,
                   name="KafkaMon/trace")
     rep = [p for p in mon.printed if isinstance(p, dict) and "viol" in p]
     if not mon.ok or not rep:
@@ -162,10 +162,10 @@ def run(ctx):
     binp = os.path.join(ctx.scratch, "c10_broker_in.json")
     bout = os.path.join(ctx.scratch, "c10_broker_trace.ndjson")
     json.dump(bsc, open(binp, "w"))
-    rc, txt = ctx.run_bin(binary, "^TestVerifC10Broker$", env={"VERIF_CASES": binp, "VERIF_OUT": bout}, timeout=1500)
+    rc, txt = ctx.run_bin(binary, "^TestVerifC10Broker$", env={"VERIF_CASES": binp, "VERIF_OUT": bout}, timeout=4500)
     if rc != 0 or not os.path.exists(bout):
         raise vlib.Infra("C10 broker harness failed rc=%s:\n%s" % (rc, txt[-3000:]))
-    mon2 = ctx.tlc("KafkaMon", "KafkaMon.cfg", workers=1, files={bout: "trace.ndjson"}, timeout=900, deadlock=False, name="KafkaMon/broker-trace")
+    mon2 = ctx.tlc("KafkaMon", "KafkaMon.cfg", workers=1, files={bout: "trace.ndjson"}, timeout=2700, deadlock=False, name="KafkaMon/broker-trace")
     rep2 = [p for p in mon2.printed if isinstance(p, dict) and "viol" in p]
     if not mon2.ok or not rep2:
         raise vlib.Infra("trace validation (broker family) failed:\n%s" % mon2.out[-3000:])
